@@ -27,4 +27,4 @@ def run(ctx):
         "current stream; an empty version epoch in the request matches any",
         "Redis/Lua brokers and the map brokers are not covered by this check",
     ]
-    H.run_hist(ctx, "c19", "drv_c19", "props/C19/corpus.ops", "props/C19/findings.json", 1000, 12000)
+    H.run_hist(ctx, "c19", "drv_c19", "props/C19/corpus.ops", "props/C19/findings.json", 1000, 30000)
